@@ -13,8 +13,8 @@ EXTENDS Naturals, Sequences, FiniteSets, TLC
 ArithTypes  == {"int", "bool", "double", "ldouble"}
 IntTypes    == {"int", "bool"}
 PtrTypes    == {"ptr_int", "ptr_cint", "ptr_char", "ptr_void", "ptr_inc", "ptr_S",
-                "ptr_fn_ii", "ptr_fn_vv", "ptr_fn_vp", "ptr_fn_vs"}
-FnTypes     == {"fn_ii", "fn_vv", "fn_vp", "fn_vs"}
+                "ptr_fn_ii", "ptr_fn_vv", "ptr_fn_vp", "ptr_fn_vs", "ptr_fn_var"}
+FnTypes     == {"fn_ii", "fn_vv", "fn_vp", "fn_vs", "fn_var"}
 StructTypes == {"struct_S", "struct_T", "union_U"}
 AllTypes    == ArithTypes \cup PtrTypes \cup FnTypes \cup StructTypes \cup
                {"arr_int", "arr_char", "void", "struct_I"}
@@ -23,8 +23,8 @@ AllTypes    == ArithTypes \cup PtrTypes \cup FnTypes \cup StructTypes \cup
 CType == [int |-> "int @", bool |-> "_Bool @", double |-> "double @", ldouble |-> "long double @",
           ptr_int |-> "int *@", ptr_cint |-> "const int *@", ptr_char |-> "char *@", ptr_void |-> "void *@",
           ptr_inc |-> "struct I *@", ptr_S |-> "struct S *@",
-          ptr_fn_ii |-> "int (*@)(int)", ptr_fn_vv |-> "void (*@)(void)", ptr_fn_vp |-> "void (*@)(int *)", ptr_fn_vs |-> "void (*@)(struct S)",
-          fn_ii |-> "int @(int)", fn_vv |-> "void @(void)", fn_vp |-> "void @(int *)", fn_vs |-> "void @(struct S)",
+          ptr_fn_ii |-> "int (*@)(int)", ptr_fn_vv |-> "void (*@)(void)", ptr_fn_vp |-> "void (*@)(int *)", ptr_fn_vs |-> "void (*@)(struct S)", ptr_fn_var |-> "int (*@)(int, int, ...)",
+          fn_ii |-> "int @(int)", fn_vv |-> "void @(void)", fn_vp |-> "void @(int *)", fn_vs |-> "void @(struct S)", fn_var |-> "int @(int, int, ...)",
           struct_S |-> "struct S @", struct_T |-> "struct T @", union_U |-> "union U @",
           arr_int |-> "int @[4]", arr_char |-> "char @[4]", arr_unk |-> "int @[]",
           void |-> "void @", struct_I |-> "struct I @"]
@@ -33,7 +33,7 @@ IsArith(t)  == t \in ArithTypes
 IsInt(t)    == t \in IntTypes
 IsPtr(t)    == t \in PtrTypes
 IsScalar(t) == IsArith(t) \/ IsPtr(t)
-IsFnPtr(t)  == t \in {"ptr_fn_ii", "ptr_fn_vv", "ptr_fn_vp", "ptr_fn_vs"}
+IsFnPtr(t)  == t \in {"ptr_fn_ii", "ptr_fn_vv", "ptr_fn_vp", "ptr_fn_vs", "ptr_fn_var"}
 IsVoidPtr(t) == t = "ptr_void"
 IsStructT(t) == t \in StructTypes
 
@@ -41,7 +41,7 @@ IsStructT(t) == t \in StructTypes
 Pointee(t) ==
   CASE t = "ptr_int" -> "int" [] t = "ptr_cint" -> "int" [] t = "ptr_char" -> "char"
     [] t = "ptr_void" -> "void" [] t = "ptr_inc" -> "struct_I" [] t = "ptr_S" -> "struct_S"
-    [] t = "ptr_fn_ii" -> "fn_ii" [] t = "ptr_fn_vv" -> "fn_vv" [] t = "ptr_fn_vp" -> "fn_vp" [] t = "ptr_fn_vs" -> "fn_vs"
+    [] t = "ptr_fn_ii" -> "fn_ii" [] t = "ptr_fn_vv" -> "fn_vv" [] t = "ptr_fn_vp" -> "fn_vp" [] t = "ptr_fn_vs" -> "fn_vs" [] t = "ptr_fn_var" -> "fn_var"
     [] OTHER -> "none"
 PteeConst(t) == t = "ptr_cint"
 (* pointer to a complete object type (6.5.6: pointer arithmetic, subscripting, ++) *)
@@ -50,8 +50,10 @@ PteeCompat(a, b) == Pointee(a) = Pointee(b)
 
 Complete(t) == t \notin {"void", "struct_I", "arr_unk"} \cup FnTypes
 
-Params(ft) == CASE ft = "fn_ii" -> <<"int">> [] ft = "fn_vv" -> <<>> [] ft = "fn_vp" -> <<"ptr_int">> [] ft = "fn_vs" -> <<"struct_S">> [] OTHER -> <<>>
-RetOf(ft)  == CASE ft = "fn_ii" -> "int" [] OTHER -> "void"
+Params(ft) == CASE ft = "fn_ii" -> <<"int">> [] ft = "fn_vv" -> <<>> [] ft = "fn_vp" -> <<"ptr_int">> [] ft = "fn_vs" -> <<"struct_S">> [] ft = "fn_var" -> <<"int", "int">> [] OTHER -> <<>>
+(* prototype ends in an ellipsis: at least Len(Params) arguments (6.5.2.2p2), the rest undergo default promotions *)
+Variadic(ft) == ft = "fn_var"
+RetOf(ft)  == CASE ft \in {"fn_ii", "fn_var"} -> "int" [] OTHER -> "void"
 
 Members(t) == CASE t = "struct_S" -> {"m", "bf"} [] t = "struct_T" -> {"q"} [] t = "union_U" -> {"ua", "ub"} [] OTHER -> {}
 
@@ -92,6 +94,13 @@ EntTab == [
   gvf  |-> [Obj("fn_vv", "void gvf(void);", "gvf") EXCEPT !.lv = FALSE, !.cst = TRUE],
   gpf  |-> [Obj("fn_vp", "void gpf(int *);", "gpf") EXCEPT !.lv = FALSE, !.cst = TRUE],
   gsfn |-> [Obj("fn_vs", "void gsfn(struct S);", "gsfn") EXCEPT !.lv = FALSE, !.cst = TRUE],
+  gvar |-> [Obj("fn_var", "int gvar(int, int, ...);", "gvar") EXCEPT !.lv = FALSE, !.cst = TRUE],
+  gcbf |-> [Obj("int", "struct CB gcb;", "gcb.cb") EXCEPT !.bf = TRUE, !.cq = TRUE],
+  (* constant zeros of pointer type: only the void one (and the integer k0) is a null pointer constant, 6.3.2.3p3 *)
+  kpi  |-> Val("ptr_int", "(int *)0"),
+  kpc  |-> Val("ptr_char", "(char *)0"),
+  kv   |-> Val("ptr_void", "(void *)0"),
+  knil |-> Val("ptr_int", "NIL"),
   ek   |-> Val("int", "EK"),
   k1   |-> Val("int", "1"),
   k0   |-> Val("int", "0"),
@@ -113,6 +122,8 @@ PreludeTypes == <<
   "struct I;",
   "union U { int ua; float ub; };",
   "enum E { EK = 7 };",
+  "struct CB { const int cb : 3; int x; };",
+  "#define NIL ((int *)0)",
   "#define MF(a, b) ((a) + (b))",
   "#define MG(a, b) ((a) b)",
   "static int gst;",
@@ -123,11 +134,11 @@ PreludeTypes == <<
 (* value type of an operand after lvalue conversion / array and function decay (6.3.2.1) *)
 VT(o) == LET t == Ent(o).ty IN
   CASE t = "arr_int" -> "ptr_int" [] t = "arr_char" -> "ptr_char"
-    [] t = "fn_ii" -> "ptr_fn_ii" [] t = "fn_vv" -> "ptr_fn_vv" [] t = "fn_vp" -> "ptr_fn_vp" [] t = "fn_vs" -> "ptr_fn_vs"
+    [] t = "fn_ii" -> "ptr_fn_ii" [] t = "fn_vv" -> "ptr_fn_vv" [] t = "fn_vp" -> "ptr_fn_vp" [] t = "fn_vs" -> "ptr_fn_vs" [] t = "fn_var" -> "ptr_fn_var"
     [] OTHER -> t
 IsFnDesig(o)  == Ent(o).ty \in FnTypes
 IsArrayObj(o) == Ent(o).ty \in {"arr_int", "arr_char"}
-IsNullConst(o) == o = "k0"
+IsNullConst(o) == o \in {"k0", "kv"}
 (* modifiable lvalue (6.3.2.1p1): lvalue, not array, not const, complete *)
 ModLvalue(o) == Ent(o).lv /\ ~IsArrayObj(o) /\ ~Ent(o).cq
 
@@ -142,5 +153,5 @@ AssignOK(lt, o) == LET rt == VT(o) IN
                             /\ PteeConst(rt) => PteeConst(lt)
     [] IsStructT(lt)  -> rt = lt
     [] OTHER          -> FALSE
-VoidFnMix(lt, o) == LET rt == VT(o) IN (IsVoidPtr(lt) /\ IsFnPtr(rt)) \/ (IsFnPtr(lt) /\ IsVoidPtr(rt))
+VoidFnMix(lt, o) == LET rt == VT(o) IN ~IsNullConst(o) /\ ((IsVoidPtr(lt) /\ IsFnPtr(rt)) \/ (IsFnPtr(lt) /\ IsVoidPtr(rt)))
 =============================================================================
